@@ -128,6 +128,7 @@ func C20() *vk.Check {
 			p.Croak = r.Chance(1, 3)
 			p.Lang = false
 			p.MaxNodes = 6
+			p.TailCall = true
 			return p
 		},
 		Hist: func(r *vk.RNG, a *app.App) []string { return histWithClears(r, a, 6, 30) },
